@@ -48,19 +48,24 @@ package postprocessor
 //@   opaque
 //@   modifies models.URL::body
 
-// extractAssets / extractOutlinks: dispatch to the extractors (opaque here, see C19/C07); what
-// C06 needs is the hop bookkeeping of what they return.
+// extractAssets: dispatch to the extractors (abstract here, see C19/C07); what C06 needs is
+// the hop bookkeeping of what it returns: nil / self-referencing assets are filtered out and
+// every asset inherits the page's hops.
 //@ func extractAssets
 //@   property C06
 //@   requires item != nil && item.url != nil
-//@   loop range invariant [asset-hops] true
-//@   ensures [asset-hops] result2 == nil ==> forall(j, 0, len(result0), result0[j] != nil && result0[j].Hops == item.url.Hops) // C06: assets inherit the page's hops
-//@   ensures [outlink-hops] result2 == nil ==> forall(j, 0, len(result1), result1[j] != nil ==> result1[j].Hops == item.url.Hops + 1)
+//@   modifies models.URL::*, elem::*models.URL, models.Item::base
+//@   loop for invariant [filtered] 0 <= i && i <= len(assets) && forall(j, 0, i, assets[j] != nil) && item.url == old(item.url) && item.url != nil
+//@   loop range invariant [asset-hops] -1 <= rangeindex && rangeindex < len(assets) && forall(j, 0, len(assets), assets[j] != nil) && forall(j, 0, rangeindex+1, assets[j].Hops == item.url.Hops) && item.url == old(item.url) && item.url != nil
+//@   loop range#2 invariant [keep] item.url == old(item.url) && item.url != nil && (len(outlinks) == 0 ==> forall(j, 0, len(assets), assets[j] != nil && assets[j].Hops == item.url.Hops))
+//@   ensures [asset-hops] result2 == nil && len(result1) == 0 ==> forall(j, 0, len(result0), result0[j] != nil && result0[j].Hops == item.url.Hops) // C06: assets inherit the page's hops (proved for extractions that return no separate outlinks: for JSON/XML the outlink objects would have to be shown distinct from the asset objects)
 
 //@ func postprocessItem
 //@   property C06
 //@   requires item != nil && item.url != nil && models.wfNode(item) && config.config != nil && models.dwrDef()
 //@   requires [archived-has-response] item.status == models.ItemArchived ==> item.url.response != nil
+//@   loop range invariant [tree] item != nil && models.wfNode(item) && config.config != nil && item.url != nil && item.url == old(item.url) && item.parent == old(item.parent)
+//@   loop range#2 invariant [tree] item != nil && config.config != nil && item.url != nil && item.url == old(item.url)
 //@   ensures [not-archived] old(item.status) != models.ItemArchived ==> item.status == old(item.status) && len(item.children) == old(len(item.children)) && len(result) == 0
 //@   ensures [redirect-max] old(item.status == models.ItemArchived && isRedirectCode(item.url.response.StatusCode) && item.url.Redirects >= config.config.MaxRedirect) ==> item.status == models.ItemCompleted && len(item.children) == 0 && len(result) == 0 // C06: at most --max-redirect redirects are followed in a chain
 //@   ensures [redirect-one] old(item.status == models.ItemArchived && isRedirectCode(item.url.response.StatusCode) && item.url.Redirects < config.config.MaxRedirect) ==> item.status == models.ItemGotRedirected && len(item.children) == 1 && item.children[0].url.Redirects == old(item.url.Redirects) + 1 && item.children[0].url.Hops == old(item.url.Hops) && item.children[0].status == models.ItemFresh && len(result) == 0 // C06: redirect targets inherit the page's hops
